@@ -276,6 +276,8 @@ def wide_objects(Pm):
         # objects that are the result of shrink(): their cache holds the un-shrunk original (seeded change C18-B)
         'shrunk': lambda: S([1., 2., 0., 4.], [False, True, False, False]).shrink(A(SHRUNK_AM)),
         'shrunk_d': lambda: _with_deriv(S([1., 2., 0., 4.], [False, False, False, True]), Pm).shrink(A(SHRUNK_AM)),
+        # ... whose derivative is masked at an element of its own
+        'shrunk_dm': lambda: _with_masked_deriv(S([1., 2., 0., 4.], [False, False, True, False]), Pm).shrink(A(SHRUNK_AM)),
         # ... with units: a unit-less copy must not un-shrink to the original WITH units (seeded change C18-F)
         'shrunk_u': lambda: Pm.Scalar(A([1., 2., 0., 4.]), A([False, True, False, False]), units=Pm.Units.KM).shrink(A(SHRUNK_AM)),
         # a Polynomial made by the quick conversion from a Vector shares that Vector's arrays; each must keep a cache of
@@ -297,6 +299,11 @@ SHRUNK_AM = [True, False, True, True]
 
 def _with_deriv(x, Pm):
     x.insert_deriv('t', x.wod * 0.5)
+    return x
+
+
+def _with_masked_deriv(x, Pm):
+    x.insert_deriv('t', Pm.Scalar(np.arange(4.) + 10., np.array([True, False, False, True])))
     return x
 
 
@@ -375,7 +382,7 @@ def wide_alphabet(name, Pm):
     return q + m
 
 
-def obs_any(r, Pm):
+def obs_any(r, Pm, _depth=0):
     """canonical observable form of a query answer"""
     if isinstance(r, Pm.Qube):
         sh = r.shape
@@ -383,7 +390,12 @@ def obs_any(r, Pm):
         vals = np.broadcast_to(np.asarray(r._values_), sh + r.item)
         flat = vals.reshape((-1,) + (r.item if r.item else ())) if r.size else vals.reshape((0,))
         vis = [None if m else np.asarray(v).tolist() for v, m in zip(flat, msk.ravel())] if r.size else []
-        return ('q', type(r).__name__, list(sh), vis, sorted(r.derivs.keys()), str(r.units), bool(r.readonly))
+        ders = []
+        if _depth == 0:
+            # the derivatives with their own masks (seeded change C18-J: the cached route of unshrink() replaced them)
+            for k in sorted(r.derivs):
+                ders.append((k, obs_any(r.derivs[k], Pm, 1)))
+        return ('q', type(r).__name__, list(sh), vis, sorted(r.derivs.keys()), str(r.units), bool(r.readonly), ders)
     if isinstance(r, np.ndarray):
         return ('a', r.shape, r.tolist())
     if isinstance(r, tuple):
